@@ -35,6 +35,45 @@ def expected_total(show_dbm, named):
     return Lin(t, c)
 
 
+def net_deps(v):
+    from .net import base_deps
+    return base_deps(v)
+
+
+def cells(parts):
+    """byte-level view of an assembled packet (see length_algebra)"""
+    from ..interp_ext import parse_fmt, STRUCT_CODES
+    out = []
+    for tag, ln in parts:
+        k = tag[0]
+        if k == "const":
+            out.extend(tag[1])
+        elif k == "items":
+            for x in tag[2]:
+                c = const_of(norm(x))
+                out.append(c & 0xFF if isinstance(c, int) else ("v", x))
+        elif k == "pack":
+            order, codes = parse_fmt(tag[1])
+            for c_, x in zip([c for c in codes if c != "x"], tag[2]):
+                n_ = STRUCT_CODES[c_][0]
+                cv = const_of(norm(x))
+                if isinstance(cv, int):
+                    out.extend(cv.to_bytes(n_, "big" if order in (">", "!") else "little", signed=cv < 0))
+                elif n_ == 1:
+                    out.append(("v", x))
+                else:
+                    out.append(("blk", "pack" + tag[1]))
+        elif k == "sym":
+            out.append(("blk", tag[1]))
+        elif k == "param":
+            out.append(("blk", "payload"))
+        elif k == "crc24":
+            out.append(("blk", "crc"))
+        else:
+            out.append(("blk", str(k)))
+    return out
+
+
 def length_algebra(ck, agg, b):
     P = ck.prog
     f_mk = P.method(b.cls, "_make_payload")
@@ -67,38 +106,28 @@ def length_algebra(ck, agg, b):
                 sgn = it.lin_sign(lin_add(Lin({}, TB.RADIO_PAYLOAD), want, -1), out.state)
                 agg.add("R18.1", f_mk, "an accepted packet fits in the radio's 32-byte payload", sgn in (">0", ">=0", "==0"), "%s: accepted although 32 - total is %s" % (label, sgn))
                 parts = v.parts if isinstance(v, Bytes) else []
-                # header: [0x42, pl_size] with pl_size = total - header(2) - crc(3)
-                hd = parts[0][0] if parts else None
-                okh = hd is not None and hd[0] == "items" and len(hd[2]) == 2 and const_of(norm(hd[2][0])) == TB.PDU_TYPE
-                agg.add("R18.2", f_mk, "PDU header byte 0 is 0x42 (ADV_NONCONN_IND, TxAdd random)", okh, "%s: header %r" % (label, hd[2] if hd else None))
-                if okh:
-                    pls = as_lin(norm(hd[2][1]))
-                    dd = lin_add(pls, lin_add(want, Lin({}, TB.HEADER_LEN + TB.CRC_LEN), -1), -1) if pls is not None else None
-                    agg.add("R18.2", f_mk, "the length byte counts everything between header and CRC", dd is not None and not dd.terms and dd.c == 0, "%s: length byte %r, expected total - 5" % (label, hd[2][1]))
-                # layout order
                 tags = [p[0] for p in parts]
-                seq = []
-                for t in tags:
-                    if t[0] == "sym":
-                        seq.append(t[1])
-                    elif t[0] == "param":
-                        seq.append("payload")
-                    elif t[0] == "crc24":
-                        seq.append("crc")
-                    elif t[0] == "pack":
-                        seq.append("pack" + t[1])
-                    elif t[0] == "const":
-                        if t[1]:
-                            seq.append("const:" + t[1].hex())
-                    elif t[0] == "items":
-                        seq.append("items:" + ",".join(str(const_of(norm(x))) if const_of(norm(x)) is not None else "?" for x in t[2]))
-                want_seq = ["items:66,?", "mac", "items:2,1", "const:05"]
+                # the packet as a sequence of cells: a known byte (int), one byte of known provenance ("v", value), or a block of symbolic
+                # length ("blk", label) - whatever statements / library calls put the bytes there (bytes([..]), struct.pack, chunk(), constants)
+                cl = cells(parts)
+                okh = len(cl) >= 2 and cl[0] == TB.PDU_TYPE and isinstance(cl[1], tuple) and cl[1][0] == "v"
+                agg.add("R18.2", f_mk, "PDU header byte 0 is 0x42 (ADV_NONCONN_IND, TxAdd random)", okh, "%s: packet starts %r" % (label, cl[:2]))
+                if okh:
+                    pls = as_lin(norm(cl[1][1]))
+                    dd = lin_add(pls, lin_add(want, Lin({}, TB.HEADER_LEN + TB.CRC_LEN), -1), -1) if pls is not None else None
+                    agg.add("R18.2", f_mk, "the length byte counts everything between header and CRC", dd is not None and not dd.terms and dd.c == 0, "%s: length byte %r, expected total - 5" % (label, cl[1][1]))
+                shape = [c if isinstance(c, int) else ("?" if c[0] == "v" else c[1]) for c in cl]
+                for i_ in range(len(shape) - 2):
+                    if shape[i_] == 2 and shape[i_ + 1] == TB.AD_TX_POWER and isinstance(shape[i_ + 2], int):
+                        shape[i_ + 2] = "?"          # the PA level, known on this path (looked up in a constant table)
+                want_shape = [TB.PDU_TYPE, "?", "mac", 2, TB.AD_FLAGS, 5]
                 if show_dbm:
-                    want_seq += ["items:2,10", "pack>b"]
+                    want_shape += [2, TB.AD_TX_POWER, "?"]
                 if named:
-                    want_seq += ["items:?,8", "name"]
-                want_seq += ["payload", "crc"]
-                agg.add("R18.2", f_mk, "field order: header, MAC, flags AD (02 01 05), [TX power AD 0x0A], [name AD 0x08], caller's chunks, CRC", seq == want_seq, "%s: layout %r" % (label, seq))
+                    want_shape += ["?", TB.AD_SHORT_NAME, "name"]
+                want_shape += ["payload", "crc"]
+                agg.add("R18.2", f_mk, "field order: header, MAC, flags AD (02 01 05), [TX power AD 02 0A xx], [name AD len 08 name], caller's chunks, CRC", shape == want_shape,
+                        "%s: layout %r, expected %r" % (label, shape, want_shape))
                 crcs = [e for e in out.trace if e.kind == "crc"]
                 if crcs and isinstance(crcs[0].data[0], Bytes):
                     covered = [p[0] for p in crcs[0].data[0].parts]
@@ -107,9 +136,10 @@ def length_algebra(ck, agg, b):
                 else:
                     agg.add("R18.2", f_mk, "the packet ends with crc24_ble of its content", False, "%s: no CRC computation" % label)
                 if named:
-                    nm = [t for t in tags if t[0] == "items" and len(t[2]) == 2 and const_of(norm(t[2][1])) == TB.AD_SHORT_NAME]
-                    l0 = as_lin(norm(nm[0][2][0])) if nm else None
-                    agg.add("R18.2", f_mk, "the name AD's length byte is len(name) + 1", l0 is not None and l0.terms == {"N": 1} and l0.c == 1, "%s: name AD length %r" % (label, nm[0][2][0] if nm else None))
+                    k_ = shape.index("name") if "name" in shape else -1
+                    lv = cl[k_ - 2][1] if k_ >= 2 and isinstance(cl[k_ - 2], tuple) and cl[k_ - 2][0] == "v" else None
+                    l0 = as_lin(norm(lv)) if lv is not None else None
+                    agg.add("R18.2", f_mk, "the name AD's length byte is len(name) + 1", l0 is not None and l0.terms == {"N": 1} and l0.c == 1, "%s: name AD length %r" % (label, lv))
             agg.add("R18.1", f_mk, "both the fitting and the oversize case exist", kinds == {"ok", "raise"}, "%s: %r" % (label, sorted(kinds)))
             # len_available == 32 - assembled length
             st, pl = scenario(b, show_dbm, named)
@@ -264,6 +294,144 @@ def constants(ck, agg, b):
     return n
 
 
+def _is_reversal(v, name, shift=0, st=None):
+    """v == bitreverse8(symbol `name`) << shift, read off the per-bit provenance (all 256 values at once); on a path that has decided
+    some bits of the symbol (an implementation that branches on each bit) those bits are expected as the constants the path learnt"""
+    from ..absval import as_bitv, NBITS
+    bv = as_bitv(norm(v))
+    if bv is None or bv.hi != 0:
+        return False
+    facts = (st.extra.get("bitfacts", {}) if st is not None else {})
+    for i, t in enumerate(bv.bits):
+        if shift <= i < shift + 8:
+            src = (name, 7 - (i - shift))
+            want = facts[src] if src in facts else ("s", src, False)
+        else:
+            want = 0
+        if t != want:
+            return False
+    return True
+
+
+def _decided(st, trace, name):
+    """the value a path has decided for the symbol `name` through a table lookup (`name == k` learnt), or None"""
+    facts = [e for e in trace if e.kind == "cond" and isinstance(e.data[1], tuple) and len(e.data[1]) == 2 and e.data[0] is True and isinstance(norm(e.data[1][0]), Sym) and norm(e.data[1][0]).name == name]
+    if facts:
+        return const_of(norm(facts[-1].data[1][1]))
+    rng_ = st.extra.get("symrng", {}).get(name)
+    return rng_[0] if rng_ and rng_[0] is not None and rng_[0] == rng_[1] else None
+
+
+def _reversal_ok(v, name, st, trace):
+    if _is_reversal(v, name, 0, st):
+        return True
+    c_ = const_of(norm(v)) if hasattr(v, "key") else None
+    k_ = _decided(st, trace, name)
+    return isinstance(c_, int) and isinstance(k_, int) and c_ == _rev8(k_)
+
+
+def _rev8(k):
+    return int("{:08b}".format(k & 0xFF)[::-1], 2)
+
+
+def bit_order(ck, agg):
+    """R18.7: BLE sends every byte LSB first while the nRF24 shifts MSB first - swap_bits() is the exact reversal of the 8 bits of a byte for
+    all 256 values, reverse_bits() applies it to every byte, and every data byte enters the CRC register bit-reversed in the top byte.
+    swap_bits' loop runs on a byte whose bits carry provenance (no sample values); a byte that is looked up in a module-level table is
+    followed through the table (the table is built by executing its defining statements abstractly), one path per table entry."""
+    from ..engine import Interp
+    from ..interp import State, Model, Frame
+    from ..model import Ctx
+    P = ck.prog
+    n = 0
+    f_sw = P.func("fake_ble", "swap_bits")
+    it = Interp(P, Model(), Limits(max_paths=4000, concrete_loop=300))
+    it.big_tables = True
+    st = State()
+    st.extra["symrng"] = {"byte": (0, 255)}
+    outs = it.run(f_sw, None, None, [Sym("byte", "int", rng=(0, 255))], st=st)
+    ck.absorb(it)
+    ck.analysed(f_sw)
+    for out in outs:
+        n += 1
+        agg.add("R18.7", f_sw, "swap_bits(b) is b with its 8 bits in reverse order, for every byte value", out.kind == "return" and _reversal_ok(out.value, "byte", out.state, out.trace),
+                "swap_bits(byte) returns %r" % (out.value,))
+    # reverse_bits(): element-wise.  swap_bits() is proved above, so here it is a summary ("the reversal of its argument"); an
+    # implementation that does not call it is run on a single byte instead
+    f_rb = P.func("fake_ble", "reverse_bits")
+
+    class M(Model):
+        def on_call(self, it, st, fr, node, target, args, kwargs):
+            if target.func is f_sw and len(args) == 1 and isinstance(norm(args[0]), Sym):
+                return [(st, Sym(("rev", norm(args[0]).name), "int", rng=(0, 255)))]
+            return None
+    calls_sw = any(isinstance(x, ast.Name) and x.id == f_sw.name for x in ast.walk(f_rb.node))
+    nb = 3 if calls_sw else 1
+    it = Interp(P, M(), Limits(max_paths=4000, concrete_loop=300))
+    it.big_tables = True
+    st = State()
+    items = [Sym(("in", j), "int", rng=(0, 255)) for j in range(nb)]
+    st.extra["symrng"] = {("in", j): (0, 255) for j in range(nb)}
+    buf = st.alloc("bytearray", items=list(items), label="buf")
+    for out in it.run(f_rb, None, None, [buf], st=st):
+        n += 1
+        res = it.seq_items(out.value, out.state) if out.kind == "return" else None
+        ok = res is not None and len(res) == nb and all(
+            (isinstance(norm(res[j]), Sym) and norm(res[j]).name == ("rev", ("in", j))) or _reversal_ok(res[j], ("in", j), out.state, out.trace) for j in range(nb))
+        agg.add("R18.7", f_rb, "reverse_bits() reverses the bit order of every byte, in place order", ok, "reverse_bits(%d bytes) gives %r" % (nb, res if res is not None else out.value,))
+        src = out.state.heap[buf.ident].items
+        agg.add("R18.7", f_rb, "reverse_bits() leaves its argument alone", [norm(x).key() for x in src] == [x.key() for x in items], "argument becomes %r" % (src,))
+    ck.absorb(it)
+    ck.analysed(f_rb)
+    # how a data byte enters the CRC
+    f_crc = P.func("fake_ble", "crc24_ble")
+    loops = [x for x in ast.walk(f_crc.node) if isinstance(x, ast.For) and isinstance(x.target, ast.Name) and isinstance(x.iter, ast.Name) and x.iter.id == f_crc.node.args.args[0].arg]
+    agg.add("R18.7", f_crc, "crc24_ble() takes the data bytes one by one, in order (anchor)", len(loops) == 1, "%d loops over the data argument" % len(loops))
+    if len(loops) == 1:
+        bname = loops[0].target.id
+        uses = [s_ for s_ in loops[0].body if any(isinstance(x, ast.Name) and x.id == bname and isinstance(x.ctx, ast.Load) for x in ast.walk(s_))]
+        agg.add("R18.7", f_crc, "each data byte is used once per round", len(uses) == 1 and isinstance(uses[0], (ast.AugAssign, ast.Assign)), "%d statements read the data byte" % len(uses))
+        if len(uses) == 1 and isinstance(uses[0], ast.AugAssign) and isinstance(uses[0].op, ast.BitXor):
+            it = Interp(P, Model(), Limits(max_paths=4000, concrete_loop=300))
+            it.big_tables = True
+            st = State()
+            st.extra["symrng"] = {"byte": (0, 255)}
+            tmp = Frame(f_crc, None, Ctx(P, f_crc, None), st, {}, 0, None)
+            st.envs[tmp.fid][bname] = Sym("byte", "int", rng=(0, 255))
+            it.stack = []
+            # the analyser's bit vectors are 16 bits wide: `X << 16` is split into X (checked bit by bit) and the shift amount
+            expr, shift = uses[0].value, 0
+            if isinstance(expr, ast.BinOp) and isinstance(expr.op, ast.LShift):
+                try:
+                    shift = P.fold_const(f_crc.module, expr.right)
+                    expr = expr.left
+                except ValueError:
+                    shift = 0
+            agg.add("R18.7", f_crc, "the data byte is aligned to the top byte of the 24-bit CRC register (<< 16)", shift == 16, "shifted by %r" % (shift,), uses[0])
+            vals = it.ev(expr, st, tmp)
+            from ..interp_stmt import ForkIndex
+            flat = []
+            for s_, v_ in vals:
+                flat.append((s_, v_))
+            bad = []
+            for s_, v_ in flat:
+                n += 1
+                if _is_reversal(v_, "byte", 0, s_):
+                    continue
+                c_ = const_of(norm(v_)) if hasattr(v_, "key") else None
+                rng_ = s_.extra.get("symrng", {}).get("byte")
+                facts = [e for e in s_.trace if e.kind == "cond" and isinstance(e.data[1], tuple) and e.data[0] is True and isinstance(norm(e.data[1][0]), Sym) and norm(e.data[1][0]).name == "byte"]
+                k_ = const_of(norm(facts[-1].data[1][1])) if facts else (rng_[0] if rng_ and rng_[0] == rng_[1] else None)
+                if isinstance(c_, int) and isinstance(k_, int) and c_ == _rev8(k_):
+                    continue
+                bad.append((k_, v_))
+            ck.absorb(it)
+            agg.add("R18.7", f_crc, "every data byte enters the CRC register bit-reversed (LSB first), in the top byte of the 24 bits", not bad and bool(flat),
+                    "crc ^= %s: for data byte %s the value is %r, the reversed byte << 16 is expected (%d case(s))" % (
+                        ast.unparse(uses[0].value), "%s" % (bad[0][0],) if bad else "?", bad[0][1] if bad else None, len(bad)), uses[0])
+    return n
+
+
 def run(ck):
     ck.explanation = (
         "Static analysis of fake_ble.FakeBLE with the numerical helpers (crc24_ble, whitener, reverse_bits) summarised as length-preserving / "
@@ -281,7 +449,9 @@ def run(ck):
     n2 = transforms(ck, agg, b)
     n3 = channel_pairing(ck, agg, b)
     n4 = constants(ck, agg, b)
+    n5 = bit_order(ck, agg)
     agg.flush()
+    ck.floor("R18.7", "bit-order evaluations", n5, 3)
     ck.floor("R18.1", "option combinations", n1, 4)
     ck.floor("R18.3", "advertise scenarios", n2, 3)
     ck.floor("R18.4", "channel scenarios", n3, 24)
